@@ -26,12 +26,12 @@ PROPS = {
     "C08": {
         "modules": ["Cose.Props.C08", "Cose.Props.C08Wire"],
         "families": ["cbor", "map", "msg:wrongtype", "msg:gomap", "msg:C08", "claims", "api", "kdf", "dec"],
-        "spec_ops": ["cbor.enc", "wire.wrongtype", "wire.badbucket", "wire.badpayload", "cbor.encdup", "wire.msgdup"],
+        "spec_ops": ["cbor.enc", "wire.wrongtype", "wire.badbucket", "wire.badpayload", "cbor.encdup", "wire.msgdup", "map.tagkeep", "map.views"],
         "n_quick": 8000, "n_thorough": 200000,
         "rule": "cbor.enc: random Go values (all integer kinds, nil/empty slices, nested CoseMaps of 0..320 int/text labels) encoded by the "
                 "library vs the Lean deterministic encoder; cbor.dec / map.unmarshal: random CBOR trees written by an independent "
                 "mini-encoder with non-shortest heads, indefinite lengths, duplicate keys, bad UTF-8, tags, exotic keys, then "
-                "truncation / bit-flip / insertion / huge-length mutations; distinct = distinct op line the model answered; msg:C08: foreign non-deterministically encoded messages of the six kinds decoded and re-encoded (the output is the deterministic encoding)",
+                "truncation / bit-flip / insertion / huge-length mutations; distinct = distinct op line the model answered; msg:C08: foreign non-deterministically encoded messages of the six kinds decoded and re-encoded (the output is the deterministic encoding); round 12: kdf and dec families (PartyInfo members of every wrong type at every position in turn; keys under text labels that print like integer labels)",
         "trusted_base": ["model of fxamacker/cbor v2.7.0's accepted language (Cose.Cbor.Decode) tied by correspondence only",
                          "RFC 8949 section 4.2.1 reading (Cose.Cbor.Encode)"],
         "assumptions": ["floats, tags inside `any` values, negative integers below -2^63 are outside the model (answered `unmodelled`, counted)",
@@ -76,13 +76,13 @@ PROPS = {
         "assumptions": ["the chunking law of the Go reader is established by correspondence (random chunkings), the prefix and limit laws by theorem"],
     },
     "C01": {
-        "modules": ["Cose.Props.C01", "Cose.Props.C01Enc", "Cose.Props.C01Sign", "Cose.Props.C01Mac", "Cose.Props.C01EncR", "Cose.Props.C01Forms", "Cose.Props.C01Prot", "Cose.Props.CwtEndToEnd", "Cose.Props.SignOrder"], "families": ["msg:C01", "msg:C06", "conv"], "spec_ops": ["conv.keyset", "conv.ed25519", "conv.ecdsa", "conv.ecdh", "conv.gen"],
+        "modules": ["Cose.Props.C01", "Cose.Props.C01Enc", "Cose.Props.C01Sign", "Cose.Props.C01Mac", "Cose.Props.C01EncR", "Cose.Props.C01Forms", "Cose.Props.C01Prot", "Cose.Props.CwtEndToEnd", "Cose.Props.SignOrder"], "families": ["msg:C01", "msg:C06", "conv"], "spec_ops": ["conv.keyset", "conv.ed25519", "conv.ecdsa", "conv.ecdh", "conv.gen", "msg.huge"],
         "extras": [{"name": "race", "pkg": "./race", "build_flags": ["-race"], "args": ["-seed", "{seed}", "-n", "{n}", "-only", "Mac0/,Sign1/,Encrypt0/"],
                     "n_quick": 30, "n_thorough": 400, "timeout": 3000}],
         "n_quick": 500, "n_thorough": 60000,
         "rule": "6 kinds x 24 algorithms x payload {nil, empty, raw of every CBOR length class, pre-encoded CBOR, typed map} x header maps (int/text labels; int, bstr, tstr, bool, array, nested-map values) "
                 "x external data {nil, empty, random} x 1-3 signers / 1-3 recipients incl. one nesting level; each produced message consumed tagged, untagged and CWT-tagged; "
-                "byte-exact comparison of the produced message (deterministic algorithms), of the bytes handed to the primitive and of the decoded view; payloads of named byte-slice types (mode named); caller-supplied protected buckets holding IV / Partial IV; at fixed slots for every kind: an unprotected bucket naming a kid of the caller's own, the counterpart key held under another kid; history ops (msg.reuse, seq, msg.produce2) on one message object",
+                "byte-exact comparison of the produced message (deterministic algorithms), of the bytes handed to the primitive and of the decoded view; payloads of named byte-slice types (mode named); caller-supplied protected buckets holding IV / Partial IV; at fixed slots for every kind: an unprotected bucket naming a kid of the caller's own, the counterpart key held under another kid; history ops (msg.reuse, seq, msg.produce2) on one message object; round 12: every produce ends with a second encode on the same object (the first bytes must not change), every consume runs on a private copy that is overwritten afterwards (the verified object must not change); msg.huge: 262145..1048577-octet payloads through the one-call helpers both ways",
         "trusted_base": ["model of the six message kinds (Cose.Msg.Model) hand-written, tied by correspondence; to-be-authenticated literals regenerated", "Lean crypto references for predicting verdicts"],
         "assumptions": ["signature correctness (SigCorrect) for ECDSA / Ed25519: assumed in the theorem, cross-checked by the Lean EC reference in the run"],
     },
@@ -92,7 +92,7 @@ PROPS = {
                     "n_quick": 30, "n_thorough": 400, "timeout": 3000}],
         "n_quick": 400, "n_thorough": 50000,
         "rule": "valid Sign1/Sign/Mac0/Mac messages, then per message 4 alterations: bit flip at a random position, truncation, trailing byte, byte replacement, other external data, "
-                "other key, splice of one top-level member from an independently produced message, change of kind (tag/prefix swap); model (with Lean HMAC/CBC-MAC/ECDSA/Ed25519) predicts accept/reject exactly; for every message the protected bucket re-encoded with a non-shortest head, for every COSE_Sign the last signature's protected bucket extended with the signature kept (three signers, two of one algorithm, at fixed slots)",
+                "other key, splice of one top-level member from an independently produced message, change of kind (tag/prefix swap); model (with Lean HMAC/CBC-MAC/ECDSA/Ed25519) predicts accept/reject exactly; for every message the protected bucket re-encoded with a non-shortest head, for every COSE_Sign the last signature's protected bucket extended with the signature kept (three signers, two of one algorithm, at fixed slots); round 12: consume on a private copy overwritten after verification; each authenticated kind with a 65536 / 66000 / 70000-octet payload at fixed slots",
         "trusted_base": ["model of the six message kinds (Cose.Msg.Model) hand-written, tied by correspondence; to-be-authenticated literals regenerated", "Lean crypto references for predicting verdicts"],
         "assumptions": ["existential unforgeability of the primitives is assumed; the theorems reduce acceptance of a changed authenticated item to a forgery"],
     },
@@ -113,7 +113,7 @@ PROPS = {
         "n_quick": 400, "n_thorough": 40000,
         "rule": "messages written by an independent mini-encoder with non-canonical protected buckets (non-shortest integers, reversed key order, explicit h'a0'), non-shortest heads, optional tags, "
                 "authenticated by the library's primitive over the RFC 9052 structure computed independently; recording Signer/Verifier/MACer/Encryptor wrappers expose the bytes handed to the primitive (tobe= / aad=), "
-                "compared with encode(spec structure) on both produce and verify side",
+                "compared with encode(spec structure) on both produce and verify side; round 12: a decoded COSE_Sign whose decoded views are annotated by the caller verifies over the same Sig_structures; msg.huge at fixed slots",
         "trusted_base": ["Cose.Spec.Rfc9052 (reading of RFC 9052 sections 4.4, 5.3, 6.3)", "extractor recogniser for the toSign/toMac/toEnc literals"],
         "assumptions": [],
     },
@@ -121,7 +121,7 @@ PROPS = {
         "modules": ["Cose.Props.C05", "Cose.Props.C05Sign"], "families": ["msg:C05", "msg:C04", "map"], "spec_ops": [],
         "n_quick": 300, "n_thorough": 40000,
         "rule": "per case: a produce with the protected alg given as int / int64 / key.Alg / other width / another registered alg / text / nil / out-of-range; a produce with nil headers (defaults recorded) and its consume; "
-                "a consume with a key of another algorithm sharing the key bytes where the family allows (HMAC 256/64 vs 256/256, AES-MAC, CCM, GCM); a message without protected alg; foreign messages with alg in both buckets and later signatures naming another algorithm",
+                "a consume with a key of another algorithm sharing the key bytes where the family allows (HMAC 256/64 vs 256/256, AES-MAC, CCM, GCM); a message without protected alg; foreign messages with alg in both buckets and later signatures naming another algorithm; round 12 (e): for every (kind, algorithm) pair in turn a hand-built message labelled with a sibling identifier of the key's algorithm (-53, -19, -9, -47, -51, -52) or an unimplemented one, authenticated by the key: refused",
         "trusted_base": ["model of the six message kinds (Cose.Msg.Model) hand-written, tied by correspondence; to-be-authenticated literals regenerated", "Lean crypto references for predicting verdicts"],
         "assumptions": [],
     },
@@ -129,15 +129,15 @@ PROPS = {
         "modules": ["Cose.Props.C06"], "families": ["msg:C06", "prim:aead"], "spec_ops": ["wire.msgdup"],
         "n_quick": 500, "n_thorough": 60000,
         "rule": "Encrypt0/Encrypt x 12 AEADs x unprotected {none, IV of length n-1,n,n+1,1,0, Partial IV of length 0..n+2, both, ill-typed} x key Base IV {absent, right length, wrong lengths, ill-typed}; "
-                "recording Encryptor exposes the nonce on Encrypt and Decrypt; random nonces must be published in header 5 with the algorithm's length; msg.produce2: the message object has been through one encryption with a library-chosen nonce before",
+                "recording Encryptor exposes the nonce on Encrypt and Decrypt; random nonces must be published in header 5 with the algorithm's length; msg.produce2: the message object has been through one encryption with a library-chosen nonce before; round 12: a failed Decrypt has asked the AEAD once (SEVERAL-NONCES-TRIED); Partial IV under a Base IV shorter than the nonce at fixed slots; msg.noncehistory re-reads the last 1024 message objects when they leave the window (published IV still the sealed nonce, every 64th encoded late and decrypted)",
         "trusted_base": ["model of the six message kinds (Cose.Msg.Model) hand-written, tied by correspondence; to-be-authenticated literals regenerated", "Lean crypto references for predicting verdicts"],
         "assumptions": ["non-repetition of crypto/rand output is not a theorem: proved instead that each encryption consumes its own block of the stream"],
     },
     "C09": {
-        "modules": ["Cose.Props.C09", "Cose.Props.C09Sign", "Cose.Props.C09All", "Cose.Props.KdfRoundtrip", "Cose.Props.KeySetRoundtrip", "Cose.Props.ClaimsRoundtrip", "Cose.Props.ClaimsForms"], "families": ["msg:C09", "kdf", "claims", "dec", "map"], "spec_ops": ["kdf.enc", "claims.enc", "dec.bytestr", "dec.keyjson"],
+        "modules": ["Cose.Props.C09", "Cose.Props.C09Sign", "Cose.Props.C09All", "Cose.Props.KdfRoundtrip", "Cose.Props.KeySetRoundtrip", "Cose.Props.ClaimsRoundtrip", "Cose.Props.ClaimsForms"], "families": ["msg:C09", "kdf", "claims", "dec", "map"], "spec_ops": ["kdf.enc", "claims.enc", "dec.bytestr", "dec.keyjson", "map.tagkeep", "map.views"],
         "n_quick": 400, "n_thorough": 40000,
         "rule": "library-produced messages of the 6 kinds re-encoded (tagged and untagged input), RemoveCBORTag on tagged and CWT-tagged input; foreign non-canonical messages re-encoded then consumed again "
-                "(decode -> encode -> decode -> verify on the library, predicted by the model); the decoded object is independent of its input buffer and of other objects decoded from the same octets (buffer overwritten, header maps edited), and a Verify / Decrypt leaves its re-encoding unchanged (every kind x every algorithm at fixed slots)",
+                "(decode -> encode -> decode -> verify on the library, predicted by the model); the decoded object is independent of its input buffer and of other objects decoded from the same octets (buffer overwritten, header maps edited), and a Verify / Decrypt leaves its re-encoding unchanged (every kind x every algorithm at fixed slots); round 12: map.tagkeep (values under tags 24, 32, 37, 1000, 65536 decode in all views and encode back octet for octet)",
         "trusted_base": ["model of the six message kinds (Cose.Msg.Model) hand-written, tied by correspondence; to-be-authenticated literals regenerated", "Lean crypto references for predicting verdicts"],
         "assumptions": ["value round trips of Key / Headers / recipients are tied by correspondence ops (map.unmarshal, msg.*), not by a general theorem"],
     },
@@ -151,11 +151,11 @@ PROPS = {
         "assumptions": ["known finding D9 (uninterpretable key_ops lift the restriction) is listed in known_findings.txt and proved as malformed_ops_unusable_cex"],
     },
     "C17": {
-        "modules": ["Cose.Props.C17", "Cose.Go.ByteStr", "Cose.Props.KeySetRoundtrip"], "families": ["key", "impl", "sig", "ecdh", "dec", "map", "conv", "api"], "spec_ops": ["dec.keyjson", "conv.ed25519", "conv.ecdsa", "conv.ecdh", "conv.gen", "conv.keyset"],
+        "modules": ["Cose.Props.C17", "Cose.Go.ByteStr", "Cose.Props.KeySetRoundtrip"], "families": ["key", "impl", "sig", "ecdh", "dec", "map", "conv", "api"], "spec_ops": ["dec.keyjson", "conv.ed25519", "conv.ecdsa", "conv.ecdh", "conv.gen", "conv.keyset", "conv.bigkeyset"],
         "extras": [{"name": "nolink", "pkg": "./nolink", "args": [], "n_quick": 1, "n_thorough": 1}, {"name": "nolinksig", "pkg": "./nolinksig", "args": [], "n_quick": 1, "n_thorough": 1}],
         "n_quick": 1000, "n_thorough": 100000,
         "rule": "symmetric / Ed25519 / ECDSA keys with optional and broken members (kty, alg in every Go kind or absent or foreign, kid, key_ops, Base IV, extra labels, wrong sizes), nil key; "
-                "key.info (kty/alg/ops/kid/baseIV), key.factory for the four kinds (registered / not registered / invalid), behaviour of the obtained implementation",
+                "key.info (kty/alg/ops/kid/baseIV), key.factory for the four kinds (registered / not registered / invalid), behaviour of the obtained implementation; round 12: conv.bigkeyset (key sets of 257..65537 keys survive CBOR); dec.keyset with keys under the text labels \"1\", \"3\", \"-1\", both 3 and \"3\", \"01\", \"+3\"; nolinksig (signature packages alone link what they need)",
         "trusted_base": ["key layer model hand-written, tied by correspondence; registry regenerated from register.go"],
         "assumptions": ["JSON / text round trips reduce to the CBOR round trip through ByteStr hex (same bytes); exercised by correspondence only through map.unmarshal"],
     },
@@ -175,7 +175,7 @@ PROPS = {
         "n_quick": 500, "n_thorough": 40000,
         "rule": "ES256/384/512 + EdDSA x keys incl. leading-zero scalars/coordinates x messages 0..70000 bytes; library-made signatures (and r at the codec boundary values 1, 2^k, n-1) verified by the Lean "
                 "ECDSA / Ed25519 reference under public keys in derived / exported / compressed form; every signature then mutated (bit flip, truncation, extension, leading zero, random) and the verdicts compared; "
-                "Ed25519 signatures byte-identical; the r||s codec alone (sig.decode / sig.encode: lengths around 2n, halves with leading zeros, integers at the size limit); a -race program with shared signers / verifiers; at fixed slots: messages of 4096..32768 octets, the nil message, the ASN.1 DER form of a valid (r, s), OKP keys with an ill-formed d; arguments sit in larger buffers whose tails are checked afterwards; messages that have the length of a digest (32 / 48 / 64 / 20 / 28), every algorithm in turn",
+                "Ed25519 signatures byte-identical; the r||s codec alone (sig.decode / sig.encode: lengths around 2n, halves with leading zeros, integers at the size limit); a -race program with shared signers / verifiers; at fixed slots: messages of 4096..32768 octets, the nil message, the ASN.1 DER form of a valid (r, s), OKP keys with an ill-formed d; arguments sit in larger buffers whose tails are checked afterwards; messages that have the length of a digest (32 / 48 / 64 / 20 / 28), every algorithm in turn; round 12: nolinksig — a program importing only key/ecdsa and key/ed25519 signs and verifies with every registered signature algorithm",
         "trusted_base": ["Lean ECDSA / Ed25519 / SHA-2 reference (RFC 6979, RFC 8032 KATs + this run)"],
         "assumptions": ["signature correctness and unforgeability are not theorems"],
     },
@@ -185,7 +185,7 @@ PROPS = {
                     "n_quick": 40, "n_thorough": 600, "timeout": 3000}],
         "n_quick": 300, "n_thorough": 20000,
         "rule": "4 curves x generated key pairs (one third with leading-zero coordinates) x remote key encodings {uncompressed, stripped, compressed, compressed with stripped x} + invalid remotes "
-                "(private, other curve, off-curve x, wrong lengths, all-zero, the seven low-order X25519 points); both directions on the library must agree with each other and with the Lean scalar multiplication / X25519 ladder",
+                "(private, other curve, off-curve x, wrong lengths, all-zero, the seven low-order X25519 points); both directions on the library must agree with each other and with the Lean scalar multiplication / X25519 ladder; round 12: d / x / y members as key.ByteStr and another named byte-slice type at fixed slots per member",
         "trusted_base": ["Lean Weierstrass / X25519 reference (RFC 7748 KATs + this run)"],
         "assumptions": ["the group law behind symmetry is assumed, cross-checked"],
     },
@@ -195,7 +195,7 @@ PROPS = {
         "extras": [{"name": "race", "pkg": "./race", "build_flags": ["-race"], "args": ["-seed", "{seed}", "-n", "{n}"],
                     "n_quick": 60, "n_thorough": 1500, "timeout": 3000}],
         "rule": "-race build: 16 goroutines x n operations x 32 shared instances (24 algorithm implementations, an ECDHer per curve, the Key.MACer / Encryptor / Signer+Verifier factories on a shared key, "
-                "one Validator); every result compared with the sequential one (deterministic operations byte-equal, ECDSA signatures verified); distinct = total operations / goroutines; first look-ups of alg-less keys from all goroutines at once (sequential reference computed afterwards); a caller rewriting its ValidatorOpts while others validate; the concurrent phase runs first on the instances as constructed, the sequential reference afterwards; look-ups in Verifiers / Signers / KeySet of 24 keys",
+                "one Validator); every result compared with the sequential one (deterministic operations byte-equal, ECDSA signatures verified); distinct = total operations / goroutines; first look-ups of alg-less keys from all goroutines at once (sequential reference computed afterwards); a caller rewriting its ValidatorOpts while others validate; the concurrent phase runs first on the instances as constructed, the sequential reference afterwards; look-ups in Verifiers / Signers / KeySet of 24 keys; round 12: race task Lookup/unregistered (failing key look-ups of all four kinds, each error held across another failing look-up)",
         "trusted_base": ["extractor footprint classifier (typed AST) and the allow-list of external callees in Props/C19.lean", "Go race detector (search support only)"],
         "assumptions": ["the Go memory model, the scheduler and the thread-safety of crypto/* objects held in fields (cipher.Block) are assumed, not modelled; a theorem cannot exhibit a race"],
     },
